@@ -163,13 +163,17 @@ pub fn run_families(rep: &mut Report, families: Vec<SeqSpec>, budget: Duration, 
         return;
     }
     let only = std::env::var("RDBCHECK_ONLY").ok();
-    for fam in families {
-        if let Some(o) = only.as_ref() {
-            if !fam.name.contains(o.as_str()) {
-                continue;
-            }
-        }
-        let deadline = t0 + budget;
+    let families: Vec<SeqSpec> = families.into_iter().filter(|f| only.as_ref().map(|o| f.name.contains(o.as_str())).unwrap_or(true)).collect();
+    let n_fams = families.len();
+    for (fi, fam) in families.into_iter().enumerate() {
+        // fair share: a family may use three times the remaining budget divided by the number of
+        // families still to run (what a family leaves unused rolls over to the later ones), so a
+        // deep early family cannot starve the rest
+        let end = t0 + budget;
+        let now = Instant::now();
+        let remaining = if end > now { end - now } else { Duration::from_secs(0) };
+        let share = (remaining * 3 / ((n_fams - fi) as u32)).min(remaining);
+        let deadline = now + share;
         let desc = fam.describe();
         let fam_arc = Arc::new(fam.clone());
         let r = seqx::explore(fam, w, Some(deadline));
